@@ -64,7 +64,7 @@ func expr(v ssa.Value, d int) string {
 	case *ssa.Field:
 		return expr(x.X, d+1) + "." + fieldName(x.X.Type(), x.Field)
 	case *ssa.IndexAddr:
-		return "&" + expr(x.X, d+1) + "[" + expr(x.Index, d+1) + "]"
+		return "&" + strings.TrimPrefix(expr(x.X, d+1), "&") + "[" + expr(x.Index, d+1) + "]"
 	case *ssa.Index:
 		return expr(x.X, d+1) + "[" + expr(x.Index, d+1) + "]"
 	case *ssa.Lookup:
